@@ -9,7 +9,9 @@ to one line of a Lean `do` block in the `Except String` monad (`raise X` -> `thr
             the per-scope body of the first loop of _LeafDefn.assign_all (+ the statements before the loop it reads),
             ParameterController._updateIntermediateValues, update_intermediate_values, assign_all,
             update_from_calculator, updates_postponed (a @contextmanager generator: the statements run on entry, on a normal exit and when an
-            exception leaves the block become three functions)
+            exception leaves the block become three functions),
+            _NonLeafDefn.update (class NLFn below: the rebuild of the scope -> input-ordinal mapping, the regrouping and the
+            recomputation of one value per group; primitives and hand model in lean/CogentModel/Model/NonLeaf.lean)
   parameter_controller.py  the tail of set_param_rule: everything after the scope keywords have been parsed, i.e. the
             argument checks and the argument list of the final self.assign_all(...) call
 
@@ -495,6 +497,105 @@ class Fn:
             self.emit(1, f"return {self.result}")
         return self.lines
 
+class NLFn:
+    """`_NonLeafDefn.update`: statements over the definition's own bookkeeping (`self.assignments`, `self.uniq`,
+    `self.values`) and its inputs `self.args`; one statement per line, `self` threaded as a mutable variable;
+    every attribute access / library call is ONE primitive of Model/NonLeaf.lean (namespace Prim)"""
+
+    def __init__(self):
+        self.lines = []
+        self.declared = set()
+
+    def emit(self, ind, text):
+        self.lines.append("  " * ind + text)
+
+    def target(self, t):
+        if isinstance(t, ast.Name):
+            return lname(t.id)
+        if isinstance(t, ast.Tuple) and all(isinstance(e, ast.Name) for e in t.elts):
+            return "(" + ", ".join(lname(e.id) for e in t.elts) + ")"
+        raise Unsupported(f"loop target `{u(t)}`")
+
+    def ex(self, n):
+        t = u(n)
+        if isinstance(n, ast.Name):
+            if n.id == "self":
+                raise Unsupported("bare `self`")
+            return lname(n.id)
+        if t == "self.args":
+            return "args"
+        if t == "self.uniq":
+            return "(Prim.uniq self)"
+        if isinstance(n, ast.ListComp):
+            if len(n.generators) != 1 or n.generators[0].ifs or n.generators[0].is_async:
+                raise Unsupported(f"`{t}`")
+            g = n.generators[0]
+            return f"({self.ex(g.iter)}.map (fun {self.target(g.target)} => {self.ex(n.elt)}))"
+        if isinstance(n, ast.Subscript):
+            if (isinstance(n.value, ast.Attribute) and n.value.attr == "values" and isinstance(n.value.value, ast.Name)
+                    and isinstance(n.slice, ast.Name)):
+                return f"(Prim.argValue {lname(n.value.value.id)} {lname(n.slice.id)})"
+            raise Unsupported(f"`{t}`")
+        if isinstance(n, ast.Call):
+            f = u(n.func)
+            if n.keywords:
+                raise Unsupported(f"call `{t}`: keywords")
+            if f == "dict" and len(n.args) == 1 and isinstance(n.args[0], ast.Call) and u(n.args[0].func) == "list" \
+                    and len(n.args[0].args) == 1 and isinstance(n.args[0].args[0], ast.Call):
+                z = n.args[0].args[0]
+                if u(z.func) == "zip" and len(z.args) == 2 and u(z.args[0]) == "self.valid_dimensions" and not z.keywords:
+                    return f"(Prim.scopeDict self {self.ex(z.args[1])})"
+            if f == "zip" and len(n.args) == 2 and not any(isinstance(a, ast.Starred) for a in n.args):
+                return f"(List.zip {self.ex(n.args[0])} {self.ex(n.args[1])})"
+            if f == "tuple" and len(n.args) == 1 and not isinstance(n.args[0], ast.Starred):
+                return f"(Prim.pyTuple {self.ex(n.args[0])})"
+            if f == "self.make_calc_function" and not n.args:
+                return "(Prim.makeCalcFunction f)"
+            if (isinstance(n.func, ast.Attribute) and n.func.attr == "output_ordinal_for" and isinstance(n.func.value, ast.Name)
+                    and len(n.args) == 1 and not isinstance(n.args[0], ast.Starred)):
+                return f"(Prim.outputOrdinalFor {lname(n.func.value.id)} {self.ex(n.args[0])})"
+            # nullor(self.name, <calc>, self.recycling)(*<list>)
+            if (isinstance(n.func, ast.Call) and u(n.func.func) == "nullor" and not n.func.keywords
+                    and len(n.func.args) == 3 and u(n.func.args[0]) == "self.name" and u(n.func.args[2]) == "self.recycling"
+                    and len(n.args) == 1 and isinstance(n.args[0], ast.Starred)):
+                return f"(Prim.nullorCall {self.ex(n.func.args[1])} {self.ex(n.args[0].value)})"
+            raise Unsupported(f"call `{t}`")
+        raise Unsupported(f"expression `{t}`")
+
+    def stmt(self, ind, s):
+        if isinstance(s, ast.For):
+            if s.orelse or u(s.iter) != "self.assignments" or not isinstance(s.target, ast.Name):
+                raise Unsupported(f"for statement `{u(s)[:60]}`")
+            self.emit(ind, f"for {lname(s.target.id)} in (Prim.keys self) do")
+            for x in s.body:
+                self.stmt(ind + 1, x)
+            return
+        if isinstance(s, ast.Assign) and len(s.targets) == 1:
+            tgt = s.targets[0]
+            if isinstance(tgt, ast.Name):
+                kw = "" if tgt.id in self.declared else "let mut "
+                self.declared.add(tgt.id)
+                self.emit(ind, f"{kw}{lname(tgt.id)} := {self.ex(s.value)}")
+                return
+            if isinstance(tgt, ast.Subscript) and u(tgt.value) == "self.assignments":
+                self.emit(ind, f"self := Prim.setAssignment self {self.ex(tgt.slice)} {self.ex(s.value)}")
+                return
+            if u(tgt) == "self.values":
+                self.emit(ind, f"self := Prim.setValues self {self.ex(s.value)}")
+                return
+            raise Unsupported(f"assignment target `{u(tgt)}`")
+        if isinstance(s, ast.Expr) and u(s.value) == "self._update_from_assignments()":
+            self.emit(ind, "self := Prim.updateFromAssignments self")
+            return
+        raise Unsupported(f"statement `{u(s)[:70]}`")
+
+    def body(self, stmts):
+        self.emit(1, "let mut self := self")
+        for s in stmts:
+            self.stmt(1, s)
+        self.emit(1, "return self")
+        return self.lines
+
 
 def _find(tree, cls, name):
     for n in ast.walk(tree):
@@ -524,6 +625,7 @@ for scope, setting in settings:
 LOOP1_ITER = "self.interpret_scopes(independent=independent, **scope_spec or {})"
 
 HEADER = """import CogentModel.Model.RulesPrims
+import CogentModel.Model.NonLeaf
 /- GENERATED by translator/c07_rules2lean.py from cogent3/recalculation/scope.py and
    cogent3/evolve/parameter_controller.py on every run -- do not edit.  One python statement per line; the
    primitives are those of Model/RulesPrims.lean.  Props/C07Gen.lean proves every definition below equal to
@@ -706,7 +808,17 @@ def translate(src_root: Path):
                 section("ParameterController.updates_postponed: what runs when an exception leaves the block",
                         "def updates_postponed_xexit (g : Graph V) (self : St V) (old : Bool) : Except String (St V) := do",
                         Fn("updates_postponed_xexit", ["old"], {"old": "B"}, {}, ctl=True, result="self"), exc)
-    out += ["end CogentModel.Gen.C07Ctl", ""]
+    out += ["end CogentModel.Gen.C07Ctl", "", "namespace CogentModel.Gen.C07NonLeaf", "open CogentModel.NonLeaf",
+            "variable {V : Type}", ""]
+    # ---- _NonLeafDefn.update
+    f = _find(st, "_NonLeafDefn", "update")
+    if f is None or _argnames(f) != ["self"]:
+        problems.append("_NonLeafDefn.update(self) not found")
+    else:
+        section("_NonLeafDefn.update (`args` = self.args, `f` = the definition's calc)",
+                "def update (args : List (Arg V)) (f : List V → V) (self : St V) : Except String (St V) := do",
+                NLFn(), _strip_doc(f.body))
+    out += ["end CogentModel.Gen.C07NonLeaf", ""]
     info["translated"] = done
     return "\n".join(out), info, problems
 
